@@ -9,6 +9,11 @@ from checks import _lang as L
 LEVEL = "proof"
 
 FAILING = "(mod (X) (include *standard-cl-23*) (defun F (A) (UNBOUND_NAME A)) (F X))"
+FAILINGS = ["(mod (X) (include *standard-cl-21*) (defun F (A) (G A)) (F X))",
+            "(mod (X) (include *standard-cl-22*) (include missing-file.clib) X)",
+            "(mod (X) (include *standard-cl-23*) (defun F (A) (UNBOUND_NAME A)) (F X))",
+            "(mod (X) (include *standard-cl-24*) (defun F (A) (+ A",
+            "(mod (X) (include *strict-cl-21*) (+ X UNBOUND_NAME))"]
 OTHER = {"cl21": "(mod (X) (include *standard-cl-24*) (defun F (A) (let ((B (+ A 1))) (* B B))) (F X))",
          "default": "(mod (X) (include *standard-cl-21*) (defun-inline G (A) (let ((B (+ A 1))) (* B B))) (list (G X) (G 3)))"}
 
@@ -51,6 +56,13 @@ def run(ck):
                 jobs.append((r, d, b["src"]))
     rng.shuffle(jobs)
     jobs = jobs[:28 if ck.tier == "quick" else 600]
+    # hand-written targets whose bytes depend on the integer-conversion mode if it leaks: zero-valued literals of
+    # several spellings in a function body, an inline function, a constant and the main expression
+    for d, sig in srcgen.SIGILS.items():
+        if not sig:
+            continue
+        for body in ("(defun F (A) (c 0x00 A)) (F X)", "(defun-inline F (A) (c 0x0000 (c 0 A))) (F X)", "(defconstant K 0x00) (defun F (A) (list K A 0)) (F X)", "(c 0x00 (c (q . 0) X))"):
+            jobs.append(({"fixed": True}, d, "(mod (X) %s %s)" % (sig, body)))
     hists = []
     meta = []
     ctrs = [0, 8, 9, 98, 99, 998, 999, 99999, 10 ** 9 - 1]
@@ -64,6 +76,9 @@ def run(ck):
             ("counter-random", ["setctr\t%d" % rng.randrange(1, 10 ** 7), line]),
             ("after-other-dialect", ["compile\t1\t\t" + other.encode().hex(), line]),
             ("after-failure", ["compile\t1\t\t" + FAILING.encode().hex(), line]),
+            ("after-failures-in-every-dialect", ["compile\t1\t\t" + f.encode().hex() for f in FAILINGS] + [line]),
+            ("mode-after-failure-1", ["intmode\t1"] + ["compile\t1\t\t" + f.encode().hex() for f in FAILINGS] + [line, "getintmode"]),
+            ("mode-after-failure-0", ["intmode\t0"] + ["compile\t1\t\t" + f.encode().hex() for f in FAILINGS] + [line, "getintmode"]),
             ("mode-flipped-0", ["intmode\t0", line, "getintmode"]),
             ("mode-flipped-1", ["intmode\t1", line, "getintmode"]),
             ("twice", [line, line]),
@@ -76,8 +91,8 @@ def run(ck):
     base = {}
     nontrivial = 0
     for (r, d, src, name), h, o in zip(meta, hists, outs):
-        key = (id(r), d)
-        res = o[-2] if name.startswith("mode-flipped") else o[-1]
+        key = (id(r), d, src)
+        res = o[-2] if name.startswith("mode-") else o[-1]
         if name == "fresh-1":
             base[key] = res
             nontrivial += 1
@@ -89,16 +104,19 @@ def run(ck):
                 direct.append({"clause": "a compilation running concurrently with others gives a different output", "dialect": d, "source": src,
                                "baseline": user_visible(base[key])[:400], "thread_output": user_visible(bad[0])[:400]})
             continue
-        if user_visible(res) != user_visible(base[key]):
+        # a thread whose mode starts out as old-style is not a reachable history (every compilation restores the mode:
+        # Sys/History.v, checked below); those variants only check the restoration, not the output
+        artificial = name in ("mode-flipped-0", "mode-after-failure-0")
+        if not artificial and user_visible(res) != user_visible(base[key]):
             direct.append({"clause": "the same source compiles to different output depending on the history of the process", "history": name, "dialect": d, "source": src,
                            "history_ops": [x.split("\t")[0] + (" " + x.split("\t")[1] if x.startswith(("setctr", "intmode")) else "") for x in h],
                            "baseline": user_visible(base[key])[:400], "this": user_visible(res)[:400]})
         if name == "twice" and user_visible(o[0]) != user_visible(o[1]):
             direct.append({"clause": "compiling twice in one process gives different outputs", "dialect": d, "source": src})
-        if name.startswith("mode-flipped"):
+        if name.startswith("mode-"):
             want = "OK " + name[-1]
             if o[-1] != want:
-                corr.append({"what": "a compilation does not restore the integer-conversion mode it found (Sys/History.v compile_restores_mode)", "dialect": d, "set": name[-1], "observed_after": o[-1]})
+                corr.append({"what": "a compilation (%s) does not restore the integer-conversion mode it found (Sys/History.v compile_restores_mode)" % ("failing" if "failure" in name else "successful"), "dialect": d, "set": name[-1], "observed_after": o[-1]})
         if name == "after-failure" and not o[0].startswith("ERR"):
             corr.append({"what": "the failing compilation of the history did not fail", "got": o[0][:200]})
     ck.cov["evaluations"] = sum(len(h) for h in hists)
